@@ -1013,6 +1013,14 @@ static inline void op_unsupported(Ctx &c) {
     return;
   const Model &m = c.m;
   bool noPrefix = !has_prefix(c.kind), noSubstr = !has_substr(c), noRank = is_hash(c.kind), noTable = c.kind == K_XBW;
+  // the image before any unsupported call; the one written afterwards must be the same bytes ("leaves the dictionary unchanged")
+  // (only in half of the cases: a save before the calls could itself hide state that the unsupported calls leave half-initialised)
+  bool save_first = c.rng.chance(50);
+  std::string img_before;
+  if (save_first) {
+    obs::crumb("C16,C08", "unsupported", "save before the unsupported calls");
+    img_before = save_image(c.d);
+  }
   std::vector<std::string> pats = {m.S[0], m.S[m.n - 1].substr(0, 1), m.S[c.rng.below(m.n)], std::string(1, (char)0xFE), m.S[m.n / 2] + (char)2};
   for (auto &q : pats) {
     if (noPrefix) {
@@ -1051,6 +1059,29 @@ static inline void op_unsupported(Ctx &c) {
     obs::count("eval.unsupported");
     if (it) obs::violation("C16", "unsupported", "fabricated", "extractTable", "non-null iterator");
     probe_after_unsupported(c, "table");
+  }
+  if (noPrefix || noSubstr || noRank || noTable) {
+    obs::crumb("C16,C08", "unsupported", "save after the unsupported calls");
+    std::string img_after = save_image(c.d);
+    obs::count("eval.unsupported_save_after");
+    if (save_first && img_after != img_before)
+      obs::violation("C16", "unsupported", "state-changed", "save", "the image saved after the unsupported calls differs from the one saved before them (" + std::to_string(img_before.size()) + " vs " + std::to_string(img_after.size()) + " bytes)");
+    // and it is a working image
+    std::stringstream ss(img_after, std::ios::in | std::ios::binary);
+    obs::crumb("C16,C06", "unsupported", "load of the image saved after the unsupported calls");
+    StringDictionary *l = load_own(c.kind, ss, c.opt);
+    if (!l) obs::violation("C16", "unsupported", "state-changed", "save", "the image saved after the unsupported calls does not load");
+    else {
+      Pat p(m.S[m.n - 1]);
+      uint id = l->locate(p.b, (uint)p.len);
+      uint len = SENT;
+      uchar *e = id >= 1 && id <= m.n ? l->extract(id, &len) : NULL;
+      if (!e || m.S[m.n - 1] != (char *)e)
+        obs::violation("C16", "unsupported", "state-changed", "save", "the image saved after the unsupported calls loads but does not return the last member");
+      delete[] e;
+      obs::crumb("C07", "destroy", "delete dictionary loaded after the unsupported calls");
+      delete l;
+    }
   }
 }
 #endif
